@@ -130,9 +130,23 @@ func (ph *peerHandler) reconnect() {
 		ph.mu.Unlock()
 	}
 
-	// Always call this. We could have connected since we processed the
-	// error.
-	ph.stopIfConnected()
+	// Always do this. We could have connected since we processed the
+	// error - or the connection we just made may already be gone again: then
+	// the fired timer must be re-armed here, because startIfDisconnected
+	// ignores Disconnected events while reconnectTimer is set.
+	ph.mu.Lock()
+	defer ph.mu.Unlock()
+	if ph.reconnectTimer == nil || ph.ctx.Err() != nil {
+		return // stopped, or somebody else already settled it
+	}
+	if ph.host.Network().Connectedness(ph.peer) == network.Connected {
+		logger.Debugw("successfully reconnected", "peer", ph.peer)
+		ph.reconnectTimer.Stop()
+		ph.reconnectTimer = nil
+		ph.nextDelay = initialDelay
+	} else if err == nil {
+		ph.reconnectTimer.Reset(ph.nextBackoff())
+	}
 }
 
 func (ph *peerHandler) stopIfConnected() {
